@@ -22,8 +22,10 @@ def table : List Entry := [
   ⟨"arguments(default)", .flat, .copy, .copy⟩,
   ⟨"constant(value)", .flat, .copy, .copy⟩,
   ⟨"constant(value_ints)", .flat, .freeze, .freeze⟩,
-  ⟨"const", .nest, .deep, .deep⟩,
-  ⟨"_future.initializer", .nest, .deep, .deep⟩
+  ⟨"const(ndarray)", .flat, .deep, .copy⟩,
+  ⟨"const(nested list)", .nest, .deep, .deep⟩,
+  ⟨"_future.initializer(ndarray)", .flat, .deep, .copy⟩,
+  ⟨"_future.initializer(nested list)", .nest, .deep, .deep⟩
 ]
 
 end Generated.CaptureTable
